@@ -1,6 +1,7 @@
 """Per-property registration data for MANIFEST.json (edited by hand, see gen_manifest.py)."""
 PBT = 'property-based testing (Hypothesis generated cases vs. reference model)'
-FIX_COMMITS = []
+FIX_COMMITS = ['3b9b3f9', '09d4a06', '1a3a570', '9a96315', 'deecdaa', '67fef07', '931a82b', '87c55a7',
+               '0c4e4cd', 'da4ae4d', '861e788', 'ea1d2d0', '4912797', '915518f']
 NOT_APPLICABLE = {}
 CHECKS = {
     'C20': dict(
@@ -48,4 +49,24 @@ CHECKS = {
              'invalid initdef/expired must be refused by the constructor.',
         note='The expired output may be the raw argument or schema(argument) (not fixed by the property); '
              'validation of a restored InputExp value is not asserted.'),
+    'C01': dict(
+        level='exploration', design_ref='DESIGN.md 4/C01',
+        technique=PBT + '; idle-invariant oracle (independent function table applied to a snapshot of the real outputs) + source prediction; exhaustive enumeration of all <=3-block boolean topologies x all vector-to-vector bursts (thorough)',
+        text='Generated acyclic circuits (library CBlocks incl. Compare/Override/FuncBlock with groups, every '
+             'reference style, generated creation order, CBlock->SBlock event feedback) driven by bursts of '
+             'external events on the virtual loop; after wait_init() and after every burst each CBlock output '
+             'is recomputed from the current outputs of its inputs by an independent function table. Thorough '
+             'enumerates all topologies of <=3 Not/And/Or/Xor blocks over two boolean inputs with all 12 '
+             'ordered input-vector changes.',
+        note='Values are compared with == (the simulator does not propagate equal values); Compare behind a CBlock is '
+             'held to the documented envelope only.'),
+    'C18': dict(
+        level='exploration', design_ref='DESIGN.md 4/C18',
+        technique=PBT + '; set-valued discrete-event reference model of Repeat chains on the virtual clock (ties between an arrival and a repetition instant admit both orders)',
+        text='Generated arrival patterns placed before / exactly at / after repetition instants, counts, '
+             'matching and non-matching types, explicit, implicit and chained Repeat blocks, stop instant; the '
+             'complete destination log (instant, type, all data items) must equal a sequence admitted by the '
+             'reference model, the block outputs must equal the last repeat numbers, nothing may arrive and '
+             'no task may remain after shutdown().',
+        note='CPython 3.12 asyncio wait_for/Queue semantics; exact virtual time on a 0.5 s grid.'),
 }
